@@ -160,9 +160,9 @@ def lift(idx, lifter_factory=None):
     from miasm.core.locationdb import LocationDB
     from miasm.core.bin_stream import bin_stream_str
     import logging
-    logging.getLogger("x86_arch").setLevel(logging.ERROR)      # "dynamic dst" of CALL ECX is expected
     raw = assemble(idx)
     machine = Machine("x86_32")
+    logging.getLogger("x86_arch").setLevel(logging.ERROR)      # "dynamic dst" of CALL ECX is expected
     loc_db = LocationDB()
     mdis = machine.dis_engine(bin_stream_str(raw, base_address=BASE), loc_db=loc_db)
     mdis.follow_call = False
